@@ -84,7 +84,11 @@ fn rf_check(case: &Case) -> Verdict {
 
 fn singles_enum(tier: Tier) -> Vec<Case> {
     let mut out = vec![];
-    for n in 1..=tier.pick(40, 64) {
+    let long: &[usize] = match tier {
+        Tier::Quick => &[65, 100, 128, 257],
+        Tier::Thorough => &[65, 100, 127, 128, 129, 255, 256, 257, 512, 1000],
+    };
+    for n in (1..=tier.pick(40, 64)).chain(long.iter().copied()) {
         let mut specs = unary_grid(n);
         if n > 1 {
             specs.retain(|s| !s.own_windows().is_empty());
@@ -327,7 +331,7 @@ fn mute_check(case: &Case) -> Verdict {
 
 pub fn clauses() -> Vec<Clause> {
     vec![
-        Clause::enumerated("C08", "C08/singles/enumerated", "Enumerated: every view over Echo with the full secondary-parameter grid, N in 1..40 (thorough ..64; configurations that panic are C15's), 12 stream classes (single, constant, zeros, ties, up, down, alternating, noise, sum-zero, shorter than N, exactly N, long mix), every third class extended by a flat tail of 3N+5; f64 at magnitudes 1e-3..1e6. Oracle: once last() has returned a value it returns one after every later update, and every value is finite. Non-trivial: became ready and >= N further updates.", singles_enum, rf_check).with_shard(1000),
+        Clause::enumerated("C08", "C08/singles/enumerated", "Enumerated: every view over Echo with the full secondary-parameter grid, N in 1..40 and {65, 100, 128, 257} (thorough ..64 and ten long windows up to 1000; configurations that panic are C15's), 12 stream classes (single, constant, zeros, ties, up, down, alternating, noise, sum-zero, shorter than N, exactly N, long mix), every third class extended by a flat tail of 3N+5; f64 at magnitudes 1e-3..1e6. Oracle: once last() has returned a value it returns one after every later update, and every value is finite. Non-trivial: became ready and >= N further updates.", singles_enum, rf_check).with_shard(1000),
         Clause::generated("C08", "C08/chains/generated", "Generated two-level trees (unary over unary / binary, binary over unaries) with in-domain structure, grammar streams of 0..12N+50 values (flats, zero sums, zero bases, ties, spikes). Same oracle.", 8000, 300_000, chains, rf_check).with_shard(500),
         Clause::generated("C08", "C08/long/generated", "Single views over streams of 5e3 / 2e4 (thorough 1e6) values derived from a generated seed: wide noise, walk with 257-step plateaus (flat after volatile), zero stretches, ties around a level. Same oracle.", 160, 1600, long_case, long_check).with_shard(8),
         Clause::enumerated("C08", "C08/ultra/enumerated", "Enumerated: every view over Echo at N in {3, 7, 16}, two stream shapes (wide noise; walk with 257-step plateaus), 135 000 values (thorough 1.2e6): past 2^16 and 2^17 updates, where a narrowed counter wraps or saturates. Same oracle at every step.", ultra_cases, long_check).with_shard(16),
